@@ -107,17 +107,34 @@ func ruleSingleOwner(c *Ctx, r *Rule) {
 			return true, popped
 		}
 		fromCharged, popped := popIn(caller, arg, cs)
-		if call, isCall := arg.(*ssa.Call); !fromCharged && isCall && call.Call.StaticCallee() != nil && c.inModule(call.Call.StaticCallee()) {
-			h := call.Call.StaticCallee()
+		var h *ssa.Function
+		if call, isCall := arg.(*ssa.Call); !fromCharged && isCall {
+			if f := call.Call.StaticCallee(); f != nil && c.inModule(f) {
+				h = f
+			} else if mc, isMC := call.Call.Value.(*ssa.MakeClosure); isMC {
+				h, _ = mc.Fn.(*ssa.Function) // a literal called in place (an inlined helper with several returns)
+			}
+		}
+		if h != nil && h.Blocks != nil {
 			fromCharged, popped = true, true
 			rets := returnsOf(h)
 			if len(rets) == 0 {
 				fromCharged = false
 			}
+			// a nil result (stopping) is fine when attach is only reached with a non-nil stream
+			nonNil := false
+			for _, l := range c.unitGuards(cs) {
+				if op, x, y, ok := cmpLit(l); ok && op == token.NEQ && x == arg && isNilConst(y) {
+					nonNil = true
+				}
+			}
 			for _, ret := range rets {
 				res := retResults(ret)
 				if len(res) != 1 {
 					fromCharged = false
+					continue
+				}
+				if nonNil && isNilConst(res[0]) {
 					continue
 				}
 				fc, pp := popIn(h, res[0], ret)
